@@ -14,7 +14,7 @@ mut=$(run)
 tests=$(cd "$wt" && PYTHONPATH="$wt" timeout 1200 /venv/bin/python -m pytest -q -p no:cacheprovider --timeout=900 --continue-on-collection-errors 2>&1 | tail -1)
 git checkout -q -- partitura
 echo "$name: demo clean rc=$clean, with patch rc=$mut, tests: $tests"
-if [ "$clean" = "0" ] && [ "$mut" != "0" ] && echo "$tests" | grep -q "233 passed\|228 passed"; then
+if [ "$clean" = "0" ] && [ "$mut" != "0" ] && echo "$tests" | grep -q "233 passed"; then
   mkdir -p /verif/seeded/$name && cp "$src/patch.diff" "$src/demo.py" /verif/seeded/$name/
   /venv/bin/python - "$src/meta.json" "/verif/seeded/$name/meta.json" "$clean" "$mut" "$tests" <<'PY'
 import json,sys
